@@ -5,25 +5,7 @@ VERIF = os.path.dirname(os.path.dirname(os.path.abspath(__file__)))
 PY = "/venv/bin/python"
 
 # property id -> (level text, level note, design ref)
-CHECKS = {
-    "C01": ("Every cross configuration in scope x every generator answer (crossover / none / boundary value per gamete cell, "
-            "deviation-bounded) is executed on the real mate() of all seven protocols with provenance-coded parents and compared "
-            "with a pedigree reference model and an independent mosaic predicate; a universally quantified property over "
-            "configurations and generator states is decided by enumerating the small scope completely instead of sampling seeds.",
-            "Scope: 3 taxa, 3 markers, <=2 crosses, nself<=1 (quick) / <=2 (thorough), deviation bound 2/3 beyond single-mating "
-            "full enumeration; numpy uniform() returns multiples of 2^-53 in [0,1); compat shim restores removed numpy names.",
-            "DESIGN.md §3 C01"),
-    "C20": ("A TLA+ model of the evolve() call protocol (mc/tla/Loop.tla: 15 actions; the environment — 4^4 operator behaviours "
-            "{pure, in-place, aliasing start, mixed} x start state given/initialised — chosen in Init; abstract heap of edit histories "
-            "and sharing per container) is model checked by TLC (10 invariants, an action property, deadlock) for every NREP<=3 x NGEN<=2 x "
-            "LOGINIT; the complete state graph is dumped and every behaviour is replayed on the real RecurrentSelectionBreedingProgram.evolve "
-            "with instrumented operator/logbook subclasses, comparing at every call the label, t_cur, replicate counter, received container "
-            "contents, sharing with start_* and the start_* history with the model, plus an object-identity data-flow oracle independent of the model.",
-            "Scope: operator behaviours fixed over a run, containers dict->object->list, NREP<=3, NGEN<=2; verbose/kwargs/miscout contents not covered; "
-            "trusted base: TLC 1.8 and its dot dump (node count cross-checked, termination checked on the graph), the harness's dot/TLA-value parser "
-            "and the action->call binding table in c20.py.",
-            "DESIGN.md §3 C20"),
-}
+CHECKS = {k: (v["text"], v["note"], v["ref"]) for k, v in json.load(open(os.path.join(VERIF, "mc", "levels.json"))).items()}
 
 NOT_YET = "check not built yet in this session (design exists in DESIGN.md §3); will be claimed once its command exists"
 
